@@ -3,6 +3,7 @@ package main
 import (
 	"fmt"
 	"go/types"
+	"regexp"
 	"strings"
 
 	"golang.org/x/tools/go/ssa"
@@ -340,8 +341,17 @@ func fieldPath(t types.Type, name string) ([]int, types.Type, bool) {
 	return nil, nil, false
 }
 
+var aliasWordRe = regexp.MustCompile(`\b(byte|rune)\b`)
+
 func typeKeyString(t types.Type) string {
 	s := fullType(t)
 	s = strings.ReplaceAll(s, "github.com/sarchlab/akita/v5/", "")
+	// byte and rune are aliases: the same heap arrays must serve both spellings
+	s = aliasWordRe.ReplaceAllStringFunc(s, func(w string) string {
+		if w == "byte" {
+			return "uint8"
+		}
+		return "int32"
+	})
 	return s
 }
